@@ -95,6 +95,7 @@ const ExeTls &exe_tls();
 void exe_tls_reset();                         // block := initial image
 void exe_tls_save(std::vector<uint8_t> &to);  // copy the block out
 void exe_tls_load(const std::vector<uint8_t> &from);
+bool in_thread_local_storage(const void *p);     // any module's TLS block of this OS thread (errno, ...)
 static inline bool in_exe_tls(const void *p) { const ExeTls &t = exe_tls(); return t.memsz && (const uint8_t *)p >= t.block && (const uint8_t *)p < t.block + t.memsz; }
 extern const CpuModel CPU_GENERIC, CPU_SSE2, CPU_AVX2;   // pinning models
 const CpuModel *cpu_pin_model(int backend);               // 0 generic, 1 vec128, 2 vec256
